@@ -1,11 +1,18 @@
 #!/bin/bash
 # usage: tools/seedbatch.sh <tier> <ID>...   e.g. tools/seedbatch.sh quick C09 C18
-# runs seedtest for /tmp/seed-<ID>/_seed/{a,b} against check <ID>; appends to .work/seedsummary.txt
+# runs seedtest for every /tmp/seed*-<ID>/_seed/<letter>/ (and /tmp/seed-<ID>/...) against check
+# <ID>; appends to .work/seedsummary.txt. SEED_LETTERS="c d" restricts the variants.
 tier=$1; shift
+mkdir -p /verif/.work
 for id in "$@"; do
   lc=$(echo $id | tr A-Z a-z)
-  for v in a b; do
-    [ -f /tmp/seed-$id/_seed/$v/patch.diff ] || continue
-    /verif/tools/seedtest.sh /tmp/seed-$id/_seed/$v $lc-$v $tier $id 2>&1 | grep -E '^seed|^  C' | tee -a /verif/.work/seedsummary.txt
+  for d in /tmp/seed-$id /tmp/seed[0-9]-$id; do
+    [ -d "$d/_seed" ] || continue
+    for vdir in "$d"/_seed/*/; do
+      v=$(basename "$vdir")
+      [ -f "$vdir/patch.diff" ] || continue
+      [ -n "${SEED_LETTERS:-}" ] && ! echo " $SEED_LETTERS " | grep -q " $v " && continue
+      /verif/tools/seedtest.sh "${vdir%/}" $lc-$v $tier $id 2>&1 | grep -E '^seed|^  C' | tee -a /verif/.work/seedsummary.txt
+    done
   done
 done
